@@ -2,6 +2,7 @@
 From Coq Require Import List NArith ZArith String Bool.
 From Tongo Require Import Lib.Bits Lib.Res Lib.Sx Spec.Sha256 Model.BocParse Model.CellHash
   Spec.ReprHash Proofs.CellHashP Model.Wallet Model.WalletCode Model.WalletSend Harness.H14.
+From Tongo Require Model.TlbCore.
 Import ListNotations.
 Local Open Scope string_scope.
 Local Open Scope list_scope.
@@ -21,7 +22,12 @@ Definition run_addr (a : sx) : sx :=
           let o := opts_of_sx opts in
           let pkb := bytes_to_bits pk in
           let wc := match o_wc o with Some z => z | None => 0%Z end in
-          SL [(if has_seed then out_res addr_sx (api_new code_of xhash pkb v o) else SA "skipped");
+          SL [match a with
+              | SL [_; _; _; _; SL [SBytes mnemonic; SN vbyte]] =>
+                  (* DefaultWalletFromSeed: pk is the independently derived key *)
+                  out_res addr_sx (api_from_seed code_of xhash mnemonic vbyte pkb)
+              | _ => if has_seed then out_res addr_sx (api_new code_of xhash pkb v o) else SA "skipped"
+              end;
               out_res addr_sx (api_generate_address code_of xhash pkb v (o_net o) wc (o_sub o));
               out_res SBytes (do si <- api_generate_state_init code_of pkb v (o_net o) wc (o_sub o);
                               xhash si)]
@@ -88,7 +94,14 @@ Fixpoint hist_of_sx (wait : Z) (k : nat) (i : Z) (script : list sx) (last : opti
 Definition sent_sx (v : version) (e : cell) : sx :=
   match parse_ext xhash e, decode_msg xhash v e with
   | Ok x, Ok d =>
-      SL [SN (e_wc x); SBits (e_addr x);
+      SL [match e_info x with
+          | IExtIn _ (TlbCore.AStd _ wc _) _ => SN (Z.to_N (wc mod 256))
+          | _ => SA "other"
+          end;
+          match e_info x with
+          | IExtIn _ (TlbCore.AStd _ _ ad) _ => SBits ad
+          | _ => SA "other"
+          end;
           match e_init x with Some i => SL [hash_sx i] | None => SL [] end;
           SN (d_seqno d); sx_nat (List.length (d_msgs d))]
   | _, _ => SA "undecodable"
